@@ -77,6 +77,10 @@ def merge_case(rng, nprobes=None, **kw):
         probes.append(probe_spec(rng, i, tdtype=tdtype, idtype=idtype, tsv=tsv, **kw))
     if rng.random() < .2 and k > 1:      # optional matrices in only some probes
         del probes[rng.randrange(k)]['similar_templates']
+    # probe coordinates stored as floats or integers (one dtype for all probes)
+    pdt = rng.pick(['float64', 'float64', 'float32', 'int32', 'uint32', 'int64', 'uint16'])
+    for p in probes:
+        p['dtypes'] = dict(p.get('dtypes') or {}, channel_positions=pdt)
     return dict(probes=probes, dirnames=rng.pick(['idx', 'rev', 'nat']), dirkind=rng.pick(['path', 'str']),
                 twice=rng.random() < .25)
 
